@@ -271,6 +271,10 @@ func readOnlyValue(v ssa.Value, depth int) bool {
 	if depth > 4 {
 		return false
 	}
+	// error values (sentinel errors) cannot be mutated through the interface: any use of the loaded value is a read
+	if types.Identical(v.Type(), types.Universe.Lookup("error").Type()) {
+		return true
+	}
 	refs := v.Referrers()
 	if refs == nil {
 		return true
